@@ -22,12 +22,12 @@ PROPS = {
     "C03": dict(profiles=[], tags={"durable"}, checks=[], corr={}, special="sched"),
     "C04": dict(profiles=[("canon", 120, 1200)], tags={"canon", "canon-height"}, checks=["canon"], corr={"only": {"mkroot", "height"}}),
     "C05": dict(profiles=[("persist", 100, 1000), ("map", 40, 400)], tags=FUNC | {"height"}, checks=[], corr={}),
-    "C06": dict(profiles=[("diff", 200, 2000)], tags={"diff"}, checks=[], corr={"only": {"diff"}}),
+    "C06": dict(profiles=[("diff", 200, 2000)], tags={"diff"}, checks=[], corr={"only": {"diff", "diffstop", "difffail", "diffcur"}}),
     "C07": dict(profiles=[("diff", 200, 2000)], tags={"difflinks", "linkdiff"}, checks=["linkdiff"], corr={"only": {"difflinks"}, "links_as_sets": True},
                 profile_args={"diff": {"persisted": True}}),
     "C08": dict(profiles=[("persist", 100, 1000), ("map", 30, 300)], tags={"name", "encoding"}, checks=["names", "encoding"], corr={"only": {"mkroot"}, "stores": "eq"}),
     "C09": dict(profiles=[("persist", 80, 800), ("canon", 40, 400)], tags={"shape", "rootsize"}, checks=["shape"], corr={"only": {"mkroot"}}),
-    "C10": dict(profiles=[("nav", 150, 1500)], tags={"seek", "cursor"}, checks=[], corr={"only": {"seek", "cget", "cursor", "cmin", "cmax", "cceil", "cfwd", "cbwd"}}),
+    "C10": dict(profiles=[("nav", 150, 1500)], tags={"seek", "cursor"}, checks=[], corr={"only": {"seek", "seekstop", "iterstop", "cget", "cursor", "cmin", "cmax", "cceil", "cfwd", "cbwd"}}),
     "C12": dict(profiles=[], tags={"atomic", "retry"}, checks=[], corr={}, special="faults"),
     "C13": dict(profiles=[("persist", 150, 1500)], tags={"garbage", "noop", "count", "dirty"}, checks=["persist"], corr={"only": {"mkroot", "dirty"}, "stores": "sub"}),
     "C15": dict(profiles=[("diff", 200, 2000)], tags={"reads-diff"}, checks=["linkdiff"], corr={"only": {"difflinks"}, "links_as_sets": True, "loads": "sub"},
